@@ -347,6 +347,7 @@ func runC09(c *Ctx) {
 	defaultHeadersWhenEmpty(c)
 	firstTransportWins(c)
 	c15AddGuardedRule(c)
+	c09Round2(c)
 
 	// ---------------------------------------------------------------------------------------
 	c.R.Rule("status-tables", "statusFor*/errcode tables: KindProtocol→4xx constant, otherwise 200; parse and validation codes are KindProtocol; executor failure returns for parse/validation gates are preceded by errcode.Set with such a code", 8)
